@@ -663,7 +663,7 @@ func (c *BytecodeCompiler) optimiseCalls() {
 		namespaceName := call.receiverType.Name()
 		namespaceName, isSingleton := c.singletonName(namespaceName)
 
-		if namespace := value.GetConstant(value.ToSymbol(namespaceName)); namespace.IsNotUndefined() {
+		if namespace := value.GetConstant(value.ToSymbol(namespaceName)); namespace.IsNotUndefined() && !c.isBeingDefined(call.receiverType, name) {
 			var method value.Method
 			switch n := namespace.AsReference().(type) {
 			case *value.Class:
@@ -691,6 +691,15 @@ func (c *BytecodeCompiler) optimiseCalls() {
 
 		c.patchOptimisedCall(call, method.Body)
 	}
+}
+
+// Whether the type checker knows a compiled body of the method.
+// It takes precedence over the method registered at run time: in the REPL
+// the registered one may be an older definition that the chunk
+// being compiled is about to replace.
+func (c *BytecodeCompiler) isBeingDefined(receiverType types.Type, name value.Symbol) bool {
+	method := c.checker.GetMethod(receiverType, name, nil)
+	return method != nil && method.Body != nil
 }
 
 func (c *BytecodeCompiler) registerLateCall(call *bytecodeCall) {
@@ -9212,7 +9221,7 @@ func (c *BytecodeCompiler) compileOptimisedCallMethod(receiverType types.Type, n
 	namespaceName := receiverNamespace.Name()
 	namespaceName, isSingleton := c.singletonName(namespaceName)
 
-	if namespace := value.GetConstant(value.ToSymbol(namespaceName)); namespace.IsNotUndefined() {
+	if namespace := value.GetConstant(value.ToSymbol(namespaceName)); namespace.IsNotUndefined() && !c.isBeingDefined(receiverType, name) {
 		var method value.Method
 		switch n := namespace.AsReference().(type) {
 		case *value.Class:
